@@ -9,7 +9,7 @@
    format string (message texts are not modelled by GoLite; the format string of an
    errors.New is its message). *)
 From Coq Require Import List Bool String Ascii NArith ZArith Lia.
-From NV Require Import Base Generated GoLib C11_Model C11_Proofs C11_Gen.
+From NV Require Import Base Generated GoLib C11_Model C11_Proofs C11_Audit C11_Gen.
 Import ListNotations.
 Local Open Scope string_scope.
 Local Open Scope list_scope.
@@ -80,4 +80,134 @@ Proof.
   intros c Hs Hn Hg Hm. rewrite gen_sig_media_type_equiv. unfold validate.
   rewrite Hs, Hn, Hg. apply String.eqb_neq in Hm. rewrite Hm. cbn [negb].
   destruct (valid_mt (ci_mt c)); reflexivity.
+Qed.
+(* ---------- validateSignArguments (notation.go) ---------- *)
+
+Section SignArguments.
+Variables (Pool Cert : Type).
+
+(* the code's sanity check of the sign options reports exactly what the model's [validate]
+   reports, test by test and in the same order, on every option value *)
+Lemma gen_validateSignArguments_equiv : forall (c : call_in) (signer : anyv) (o : notation_go_SignerSignOptions Pool Cert),
+  ci_signer_nil c = any_is_nil signer ->
+  ci_expiry c = SignerSignOptions_ExpiryDuration Pool Cert o ->
+  ci_mt c = SignerSignOptions_SignatureMediaType Pool Cert o ->
+  res_of (gen_notation_go_validateSignArguments Pool Cert signer o) = option_map Some (validate c).
+Proof.
+  intros c signer o Hs He Hm. unfold gen_notation_go_validateSignArguments, validate.
+  rewrite Hs, He, Hm. cbv zeta.
+  destruct (any_is_nil signer); [leaf "a nil signer is not refused first"|].
+  destruct (SignerSignOptions_ExpiryDuration Pool Cert o <? 0)%Z; [leaf "negative expiry"|].
+  destruct (Z.rem (SignerSignOptions_ExpiryDuration Pool Cert o) 1000000000 =? 0)%Z; cbn [negb];
+    [|leaf "expiry that is not a whole number of seconds"].
+  destruct (String.eqb (SignerSignOptions_SignatureMediaType Pool Cert o) "");
+    [leaf "empty signature media type"|].
+  pose proof (gen_sig_media_type_equiv (SignerSignOptions_SignatureMediaType Pool Cert o)) as G.
+  destruct (gen_notation_go_validateSigMediaType _) as [e|]; cbn [GoLib.is_none negb];
+    rewrite G; destruct (valid_mt _); reflexivity.
+Qed.
+End SignArguments.
+
+(* ---------- envelope.SigningTime (internal/envelope/envelope.go) ---------- *)
+
+Section SigningTime.
+Variable Cert : Type.
+(* the model's input [si_chain]: hex SHA-256 of cert.Raw (crypto/sha256, encoding/hex) *)
+Variable thumb : Cert -> string.
+
+(* time.Time is an instant in Unix nanoseconds (GoLib); the model counts Unix seconds and
+   has [None] for the zero time *)
+Definition time_of (t : Z) : option Z :=
+  if time_is_zero t then None else Some (t / 1000000000)%Z.
+
+Definition signing_time_ns (si : signature_SignerInfo Cert) : Z :=
+  SignedAttributes_SigningTime (SignerInfo_SignedAttributes Cert si).
+
+(* a *signature.SignerInfo as the model's [option sinfo] *)
+Definition sinfo_of (p : ptr (signature_SignerInfo Cert)) : option sinfo :=
+  option_map (fun si => mk_sinfo (map thumb (SignerInfo_CertificateChain Cert si))
+                                 (time_of (signing_time_ns si))) (ptr_val p).
+
+Lemma gen_SigningTime_equiv : forall utc p,
+  res_of (snd (gen_envelope_SigningTime Cert utc p))
+  = match sinfo_of p with
+    | None => Some (Some EAnnInfoNil)
+    | Some si => match si_time si with None => Some (Some EAnnTime) | Some _ => None end
+    end
+  /\ (snd (gen_envelope_SigningTime Cert utc p) = None ->
+      exists si, ptr_val p = Some si
+                 /\ fst (gen_envelope_SigningTime Cert utc p) = utc (signing_time_ns si)).
+Proof.
+  intros utc p. unfold gen_envelope_SigningTime, sinfo_of, time_of, signing_time_ns.
+  destruct (ptr_val p) as [si|]; cbn [option_map si_time]; cbv zeta.
+  - destruct (time_is_zero _); cbn [fst snd].
+    + split; [leaf "a zero signing time is not refused as missing"|discriminate].
+    + split; [reflexivity|]. intros _. exists si. split; reflexivity.
+  - cbn [fst snd]. split; [leaf "a nil SignerInfo is not refused"|discriminate].
+Qed.
+
+(* where the model makes these two decisions: [gen_ann] (generateAnnotations) fails with
+   exactly the class SigningTime reports, and produces annotations exactly when it
+   reports none *)
+Lemma gen_SigningTime_in_gen_ann : forall utc p h pa,
+  match res_of (snd (gen_envelope_SigningTime Cert utc p)) with
+  | None => exists r, snd (gen_ann h (sinfo_of p) pa) = inr r
+  | Some (Some e) => snd (gen_ann h (sinfo_of p) pa) = inl e
+  | Some None => False
+  end.
+Proof.
+  intros utc p h pa. rewrite (proj1 (gen_SigningTime_equiv utc p)). unfold gen_ann.
+  destruct (sinfo_of p) as [si|]; [|reflexivity].
+  destruct (awrite k_thumb _ h _) as [h1 r1].
+  destruct (si_time si) as [t|]; [|reflexivity].
+  destruct (awrite k_created _ h1 r1) as [h2 r2]. exists r2. reflexivity.
+Qed.
+
+(* the instant the code hands to Format(time.RFC3339) is the one the model formats with
+   [rfc3339]; hypothesis on the oracle: Time.UTC() keeps the instant *)
+Lemma gen_SigningTime_value : forall utc p si,
+  (forall t, utc t = t) ->
+  sinfo_of p = Some si ->
+  snd (gen_envelope_SigningTime Cert utc p) = None ->
+  si_time si = Some (fst (gen_envelope_SigningTime Cert utc p) / 1000000000)%Z.
+Proof.
+  intros utc p si Hutc Hp Hn.
+  destruct (proj2 (gen_SigningTime_equiv utc p) Hn) as [s [Hs Hv]]. rewrite Hv, Hutc.
+  pose proof (proj1 (gen_SigningTime_equiv utc p)) as Hc. rewrite Hn, Hp in Hc. cbn in Hc.
+  unfold sinfo_of in Hp. rewrite Hs in Hp. cbn in Hp. injection Hp as <-. cbn [si_time] in *.
+  unfold time_of in *. destruct (time_is_zero (signing_time_ns s)); [discriminate|reflexivity].
+Qed.
+End SigningTime.
+
+(* ---------- transport: C11_accepts with the code's own argument check ---------- *)
+
+Lemma gen_validateSignArguments_nil_iff : forall Pool Cert (c : call_in) signer (o : notation_go_SignerSignOptions Pool Cert),
+  ci_signer_nil c = any_is_nil signer ->
+  ci_expiry c = SignerSignOptions_ExpiryDuration Pool Cert o ->
+  ci_mt c = SignerSignOptions_SignatureMediaType Pool Cert o ->
+  (gen_notation_go_validateSignArguments Pool Cert signer o = None <-> validate c = None).
+Proof.
+  intros Pool Cert c signer o Hs He Hm.
+  pose proof (gen_validateSignArguments_equiv Pool Cert c signer o Hs He Hm) as H.
+  destruct (gen_notation_go_validateSignArguments Pool Cert signer o); destruct (validate c);
+    cbn in H; try discriminate; split; intro G; try discriminate; reflexivity.
+Qed.
+
+Lemma gen_accepts : forall Pool Cert signer (o : notation_go_SignerSignOptions Pool Cert) tbl st c st' t d,
+  ci_signer_nil c = any_is_nil signer ->
+  ci_expiry c = SignerSignOptions_ExpiryDuration Pool Cert o ->
+  ci_mt c = SignerSignOptions_SignatureMediaType Pool Cert o ->
+  gen_notation_go_validateSignArguments Pool Cert signer o = None ->
+  sign_oci false tbl st c = (st', t) ->
+  ci_repo_nil c = false ->
+  lookup_tbl (eff_ref c) tbl = Some d ->
+  (eff_ref c = d_dg d \/ ci_isdigest c = false) ->
+  nodup_str (map fst (meta_of c (s_heap st))) = true ->
+  (forall k, In k (map fst (meta_of c (s_heap st))) ->
+             reserved k = false /\ lookup k (aread (d_ann d) (s_heap st)) = None) ->
+  t_res t = outcome c /\ reached_signer (t_res t) = true.
+Proof.
+  intros Pool Cert signer o tbl st c st' t d Hs He Hm Hg Hrun Hr Hl Hd Hn Hk.
+  apply (accepts tbl st c st' t d); try assumption.
+  apply (gen_validateSignArguments_nil_iff Pool Cert c signer o Hs He Hm). exact Hg.
 Qed.
